@@ -24,7 +24,9 @@ def shapes(tier):
     ks = [1, 2, 3] if tier == "quick" else [1, 2, 3, 4, 5]
     for k in ks:
         for addr in ("pos", "logical", "mixed"):
-            out.append(dict(k=k, sym=list(range(k)), addr=addr, sterile=False))
+            # at most four symbolic lengths (five exhaust the path budget)
+            out.append(dict(k=k, sym=list(range(min(k, 4))), addr=addr,
+                            sterile=False))
         # SterilePacket keys a dict by datagram position: lengths are
         # enumerated (contents and all header fields stay symbolic)
         for lens in ([0, 1, 7], [34, 0, 2], [1400, 60, 1], [5, 5, 5]):
@@ -220,13 +222,14 @@ def worker(args):
 def main(tier, replay_file=None):
     ck = common.Check(
         "C11", tier, "model_checking", FUNCTIONS,
-        bounds=dict(datagrams="1..3 (thorough 1..5) with every data length "
-                              "symbolic 0..1600; 14/15/16 datagrams with two "
-                              "symbolic lengths (count limit)",
+        bounds=dict(datagrams="1..3 (thorough 1..5) datagrams with up to four "
+                              "data lengths symbolic 0..1600 (a fifth datagram "
+                              "has a fixed small length); 14/15/16 datagrams "
+                              "with two symbolic lengths (count limit)",
                     fields="command from 6 ECCmd members; index, position/"
                            "offset or logical address, working-counter preset, "
                            "frame index, ethertype, all data bytes: symbolic",
-                    outside="more than 5 symbolic-length datagrams in one frame"),
+                    outside="more than 4 symbolic-length datagrams in one frame"),
         stubs=["struct model of vf/pysym.py"],
         assumptions=["frame parser written from ETG.1000.4: 2-byte header "
                      "(11-bit length, type 1), 10-byte datagram headers, M flag "
